@@ -389,7 +389,15 @@ def tags(ctx):
         for kind, short, longf in (('scalar', 'k: !%s val.ue\n' % t, 'k: {"%s": "val.ue"}\n' % long_of.get(t, t)),
                                    ('sequence', 'k: !%s [a, b]\n' % t, 'k: {"%s": [a, b]}\n' % long_of.get(t, t)),
                                    ('nested', 'k: !%s [!%s x, b]\n' % (t if t in seq else 'Join', t if t in single else 'Ref'),
-                                    'k: {"%s": [{"%s": x}, b]}\n' % (long_of.get(t if t in seq else 'Join'), long_of.get(t if t in single else 'Ref')))):
+                                    'k: {"%s": [{"%s": x}, b]}\n' % (long_of.get(t if t in seq else 'Join'), long_of.get(t if t in single else 'Ref'))),
+                                   # sequences of every size and style: empty (as a map value, as a list element, last in the document), one
+                                   # element, written as a block
+                                   ('sequence/empty', 'k: !%s []\nz: 1\n' % t, 'k: {"%s": []}\nz: 1\n' % long_of.get(t, t)),
+                                   ('sequence/empty-last', 'a: 1\nk: !%s []\n' % t, 'a: 1\nk: {"%s": []}\n' % long_of.get(t, t)),
+                                   ('sequence/empty-element', 'k:\n  - !%s []\n  - b\n  - !%s []\n' % (t, t), 'k: [{"%s": []}, b, {"%s": []}]\n' % (long_of.get(t, t), long_of.get(t, t))),
+                                   ('sequence/one', 'k: !%s [a]\n' % t, 'k: {"%s": [a]}\n' % long_of.get(t, t)),
+                                   ('sequence/block', 'k: !%s\n  - a\n  - [b, c]\n  - []\nz: 1\n' % t, 'k: {"%s": [a, [b, c], []]}\nz: 1\n' % long_of.get(t, t)),
+                                   ('scalar/empty', 'k: !%s ""\nz: 1\n' % t, 'k: {"%s": ""}\nz: 1\n' % long_of.get(t, t))):
             for ld in ('cli', 'test', 'lib'):
                 ops.append({'op': 'doc', 'data': short, 'loader': ld})
                 meta.append((t, kind, ld, 'short', short))
@@ -402,7 +410,8 @@ def tags(ctx):
         by.setdefault((m[0], m[1]), {})[(m[2], m[3])] = (strip_dump(rr[1]) if rr and rr[0] == 'Ok' else ('error', str(rr)[:80]), m[4])
     n = 0
     for (t, kind), d in by.items():
-        matched = (kind == 'scalar' and t in single) or (kind == 'sequence' and t in seq) or kind == 'nested'
+        base = kind.split('/')[0]
+        matched = (base == 'scalar' and t in single) or (base == 'sequence' and t in seq) or kind == 'nested'
         for ld in ('cli', 'test', 'lib'):
             n += 1
             s_val, s_text = d[(ld, 'short')]
